@@ -7,7 +7,7 @@ CONSTANTS Forms
 Pairs(f) == {<<k, f[k]>> : k \in DOMAIN f}
 \* the state is only an identity for the harness (it rebuilds the graph); what it compares is Obs
 St == ToString(core)
-Obs == [out |-> out, subs |-> subs, pending |-> PendIds, done |-> done, failed |-> failed,
+Obs == [out |-> out, forgotten |-> {p \in DOMAIN rR : Get(evN, p) > 0}, subs |-> subs, pending |-> PendIds, done |-> done, failed |-> failed,
         ackedR |-> Pairs(aR), delivR |-> Pairs(dR), delivU |-> Pairs(dU), ids |-> ids]
 \* a data message (matches the extra subscribers) carries its acks appended; a PacketAck message does not match
 FormsFor(acks, match) == IF match THEN {"app"} ELSE
